@@ -105,10 +105,56 @@ theorem refetch_after_evict (cfg : Cfg) (rest : List Op) (rt : RType) (n : Name)
     subst hrt
     simp [served, ha, hnds, hc]
 
+/-- a name the control plane removes (a complete update without it) keeps its idle clock: it is still in the
+interest set, and the cleaner - which walks the clocks, not the cache - withdraws it once it has been idle for
+longer than the period (`expired_evictable`, `evict_effect`) -/
+theorem dropped_keeps_clock (s : St) (rt : RType) (up : Name → Option Val) (init : Option Nat) (n : Name)
+    (hu : up n = none) (hfull : isFull rt = true) :
+    (applyUpdate s rt up init).cache rt n = none ∧ (applyUpdate s rt up init).acc rt n = s.acc rt n ∧
+    (applyUpdate s rt up init).watched = s.watched := by
+  simp [applyUpdate, hu, hfull]
+
+/-- an update never caches a name outside the interest set: a response that was on its way when the sweep
+unsubscribed a name cannot bring the entry back -/
+theorem unsubscribed_update_ignored (cfg : Cfg) (s s' : St) (r : Resp) (now : Nat) (n : Name)
+    (hw : n ∉ (s.watched r.rt).getD []) (hc : s.cache r.rt n = none)
+    (hs : step cfg s (.push r now) = some s') : s'.cache r.rt n = none := by
+  simp only [step] at hs
+  split at hs; · cases hs
+  split at hs
+  · cases hs; exact hc
+  · rename_i ws hws
+    split at hs; · cases hs
+    split at hs; · cases hs
+    split at hs
+    · cases hs; simpa [ack] using hc
+    · split at hs
+      · cases hs; simpa [ack] using hc
+      · cases hs
+        have hf : filtered cfg (ack s r r.decodes s.recvStream) r n = none := by
+          have : (ack s r r.decodes s.recvStream).watched r.rt = some ws := by simpa [ack] using hws
+          simp only [filtered, this]
+          have hn : n ∉ ws := by simpa [hws] using hw
+          simp [hn]
+        have hc' : (ack s r r.decodes s.recvStream).cache r.rt n = none := by simpa [ack] using hc
+        simp [applyUpdate, hf, hc']
+
+/-- after an eviction, an update of that type leaves the evicted entry out of the cache -/
+theorem evicted_stays_out (cfg : Cfg) (s s1 s2 : St) (rt : RType) (n : Name) (t now : Nat) (r : Resp)
+    (hrt : r.rt = rt) (hq : s.closed = false) (he : step cfg s (.evict rt n t) = some s1)
+    (hp : step cfg s1 (.push r now) = some s2) : s2.cache rt n = none := by
+  obtain ⟨h1, _, h3, _, _⟩ := evict_effect cfg s s1 rt n t hq he
+  subst hrt
+  exact unsubscribed_update_ignored cfg s1 s2 r now n (by simp [h3]) h1 hp
+
 /-! non-vacuity -/
 example : ((run C01.exCfg init (C01.exOps ++ [.touch .lds "echo:8888" 100, .evict .lds "echo:8888" 131, .senderSend false])).map
     (fun s => (s.cache .lds "echo:8888", s.watched .lds, (s.wire.getLast?).map (fun kq => kq.2.names))))
     = some (none, some [], some []) := by decide
 example : (run C01.exCfg init (C01.exOps ++ [.touch .lds "echo:8888" 100, .evict .lds "echo:8888" 130])).isNone = true := by decide
+/-- an update naming the evicted listener arrives after the sweep: it is acknowledged and leaves the entry out -/
+example : ((run C01.exCfg init (C01.exOps ++ [.touch .lds "echo:8888" 100, .evict .lds "echo:8888" 131, .senderSend false,
+      .push { rt := .lds, version := "2", nonce := "c", slots := [.good "10.0.0.1_8888" "L2"] } 131])).map
+    (fun s => (s.cache .lds "echo:8888", s.version .lds, s.watched .lds))) = some (none, "2", some []) := by decide
 
 end XdsVerif.Properties.C19
